@@ -108,12 +108,17 @@ pub struct TBackend<V, B: Bitmap + 'static> {
     pub mem: Arc<Mutex<Option<GM<B>>>>,
     pub vrings: Arc<Mutex<Vec<Vec<V>>>>,
     probe_fds: Arc<Vec<EventFd>>,
+    /// custom listeners: delivered id -> descriptor to drain when the event is dispatched
+    pub listeners: Arc<Mutex<std::collections::HashMap<u16, RawFd>>>,
+    /// raw numbers of the exit-event consumer clones handed to the library (which leaks them:
+    /// `VringEpollHandler::new` turns the consumer into a raw descriptor and never closes it)
+    pub leaked_exit_fds: Arc<Mutex<Vec<RawFd>>>,
     _p: PhantomData<(V, B)>,
 }
 
 impl<V, B: Bitmap + 'static> Clone for TBackend<V, B> {
     fn clone(&self) -> Self {
-        TBackend { cfg: self.cfg.clone(), sh: self.sh.clone(), exits: self.exits.clone(), mem: self.mem.clone(), vrings: self.vrings.clone(), probe_fds: self.probe_fds.clone(), _p: PhantomData }
+        TBackend { cfg: self.cfg.clone(), sh: self.sh.clone(), exits: self.exits.clone(), mem: self.mem.clone(), vrings: self.vrings.clone(), probe_fds: self.probe_fds.clone(), listeners: self.listeners.clone(), leaked_exit_fds: self.leaked_exit_fds.clone(), _p: PhantomData }
     }
 }
 
@@ -152,10 +157,11 @@ where
         let mut sh = Shared::default();
         sh.probes = vec![0; n];
         sh.snaps = vec![vec![]; n];
-        TBackend { cfg: Arc::new(cfg), sh: Arc::new((Mutex::new(sh), Condvar::new())), exits: Arc::new(exits), mem: Arc::new(Mutex::new(None)), vrings: Arc::new(Mutex::new(vec![vec![]; n])), probe_fds: Arc::new(probe_fds), _p: PhantomData }
+        TBackend { cfg: Arc::new(cfg), sh: Arc::new((Mutex::new(sh), Condvar::new())), exits: Arc::new(exits), mem: Arc::new(Mutex::new(None)), vrings: Arc::new(Mutex::new(vec![vec![]; n])), probe_fds: Arc::new(probe_fds), listeners: Arc::new(Mutex::new(Default::default())), leaked_exit_fds: Arc::new(Mutex::new(Vec::new())), _p: PhantomData }
     }
     pub fn probe_id(&self) -> u16 {
-        self.cfg.num_queues as u16 + 1
+        // far away from the queue / exit range and from the boundary ids the checks register
+        0xfff0
     }
     pub fn probe_fd(&self, t: usize) -> RawFd {
         self.probe_fds[t].as_raw_fd()
@@ -231,7 +237,11 @@ where
         self.cfg.masks.clone()
     }
     fn exit_event(&self, t: usize) -> Option<(EventConsumer, EventNotifier)> {
-        self.exits.get(t).map(|(c, n)| (c.try_clone().unwrap(), n.try_clone().unwrap()))
+        self.exits.get(t).map(|(c, n)| {
+            let c2 = c.try_clone().unwrap();
+            self.leaked_exit_fds.lock().unwrap().push(c2.as_raw_fd());
+            (c2, n.try_clone().unwrap())
+        })
     }
     fn handle_event(&self, device_event: u16, _evset: EventSet, vrings: &[V], thread_id: usize) -> std::io::Result<()> {
         if device_event == self.probe_id() {
@@ -244,6 +254,11 @@ where
             s.probes[thread_id] += 1;
             cv.notify_all();
             return Ok(());
+        }
+        if let Some(fd) = self.listeners.lock().unwrap().get(&device_event) {
+            let mut b = [0u8; 8];
+            // SAFETY: read from an eventfd owned by the harness.
+            unsafe { libc::read(*fd, b.as_mut_ptr() as *mut libc::c_void, 8) };
         }
         let ring_size = vrings.get(device_event as usize).map(|v| v.get_ref().get_queue().size());
         let action = {
@@ -469,7 +484,17 @@ where
 
     /// Ordering barrier on worker `t`: everything that was pending on its epoll set before this
     /// call has been handled when it returns. Returns the ring snapshot taken by the worker.
+    ///
+    /// Two rounds are needed: epoll is level-triggered, so the entry of the previous probe can
+    /// still sit at the head of the ready list (re-queued, not yet re-polled) and be reported
+    /// *before* a kick that became ready earlier; everything reported in the same batch as the
+    /// first probe has been handled once a second probe is handled.
     pub fn probe(&self, t: usize) -> Result<Vec<QSnap>, String> {
+        self.probe_once(t)?;
+        self.probe_once(t)
+    }
+
+    fn probe_once(&self, t: usize) -> Result<Vec<QSnap>, String> {
         let (m, cv) = &*self.be.sh;
         let before = m.lock().unwrap().probes[t];
         // SAFETY: write to our own eventfd.
@@ -519,6 +544,13 @@ where
         if let Some(mut d) = self.daemon.take() {
             let _ = d.wait();
             drop(d);
+        }
+        // The library leaks one exit-event descriptor per worker (see `leaked_exit_fds`); it is not
+        // a descriptor received over a socket, so it is outside C09 - but thousands of daemon
+        // instances would exhaust the table, so the harness closes its clones itself.
+        for fd in self.be.leaked_exit_fds.lock().unwrap().drain(..) {
+            // SAFETY: the clone was created by the harness and is referenced by nothing any more.
+            unsafe { libc::close(fd) };
         }
         let _ = std::fs::remove_file(&self.path);
     }
